@@ -375,6 +375,7 @@ func cmdReplay(args []string) {
 				}
 				for _, v := range r.viols {
 					if len(viols) < *maxMis {
+						v.Behaviour = behs[bi]
 						viols = append(viols, v)
 					}
 				}
